@@ -8,8 +8,44 @@ mod cas;
 mod wsc;
 
 use mc::{Level, Report};
+use std::alloc::{GlobalAlloc, Layout, System};
+use std::sync::atomic::Ordering;
+
+/// Recording allocator: remembers the largest single request (> 1 MiB) so that the WSC child
+/// process can report an allocation sized from corrupted input even when it happens to succeed.
+struct Recording;
+// SAFETY: every call is forwarded unchanged to the system allocator; the only addition is an
+// atomic max on a static.
+unsafe impl GlobalAlloc for Recording {
+    unsafe fn alloc(&self, l: Layout) -> *mut u8 {
+        if l.size() > (1 << 20) {
+            wsc::MAX_ALLOC_REQUEST.fetch_max(l.size(), Ordering::Relaxed);
+        }
+        System.alloc(l)
+    }
+    unsafe fn alloc_zeroed(&self, l: Layout) -> *mut u8 {
+        if l.size() > (1 << 20) {
+            wsc::MAX_ALLOC_REQUEST.fetch_max(l.size(), Ordering::Relaxed);
+        }
+        System.alloc_zeroed(l)
+    }
+    unsafe fn realloc(&self, p: *mut u8, l: Layout, new_size: usize) -> *mut u8 {
+        if new_size > (1 << 20) {
+            wsc::MAX_ALLOC_REQUEST.fetch_max(new_size, Ordering::Relaxed);
+        }
+        System.realloc(p, l, new_size)
+    }
+    unsafe fn dealloc(&self, p: *mut u8, l: Layout) {
+        System.dealloc(p, l)
+    }
+}
+#[global_allocator]
+static ALLOC: Recording = Recording;
 
 fn main() {
+    if let Ok(spec) = std::env::var("C20_UNIT") {
+        wsc::child_main(&spec);
+    }
     let r = Report::new("C20", Level::ModelChecking);
     mc::quiet_panics();
     if let Some(p) = r.replay.clone() {
@@ -77,7 +113,10 @@ fn main() {
             vec!["put", "put_verified", "put_verified_mismatch", "get", "has", "pin", "unpin"]
         };
         if s.disk() {
-            kinds.extend(["reopen", "corrupt_flip", "corrupt_truncate", "corrupt_append", "corrupt_swap", "corrupt_delete"]);
+            kinds.extend(["reopen", "corrupt_flip", "corrupt_append", "corrupt_swap", "corrupt_delete"]);
+            if !s.retention() {
+                kinds.push("corrupt_truncate");
+            }
         }
         for k in kinds {
             r.guard(&format!("cas_every_op_kind_executed/{t}/{k}"), c(k) > 0);
@@ -128,11 +167,11 @@ fn main() {
     r.guard("wsc_foreign_root_pairs_checked", r.counter_value("wsc/foreign_root_pairs") > 0);
     r.guard(
         "wsc_forged_retained_envelope_reached_the_hash_check",
-        r.outcome_count("wsc/self-contained/corrupt-embedded-retained-payload-forged-envelope→Err:RetainedMaterialDigestMismatch") > 0,
+        r.outcome_count("wsc/self-contained/corrupt-embedded-retained-payload-forged-envelope→import-Err:RetainedMaterialDigestMismatch") > 0,
     );
     r.guard(
         "wsc_lying_store_reached_the_hash_check",
-        r.outcome_count("wsc/cas-addressed/corrupt-cas-blob-lying-store→Err:CasBlobHashMismatch") > 0,
+        r.outcome_count("wsc/cas-addressed/corrupt-cas-blob-lying-store→import-Err:CasBlobHashMismatch") > 0,
     );
 
     wit.flush(&r);
